@@ -9,7 +9,7 @@ set -u
 cd "$(dirname "$0")"
 export GOFLAGS=-mod=mod GOPROXY=off GOSUMDB=off GOTOOLCHAIN=local
 ID="$1"; TIER="${2:-${VERIF_TIER:-quick}}"
-SHADOW=" C04 C18 "
+SHADOW=" C04 C06 C18 "
 mkdir -p bin evidence
 SRC=/repo
 SUF=""
